@@ -96,10 +96,13 @@ def ArraysDeclareItems (O : Oracles) (defs : String → Option Schema) (v : View
 /-! ### inheritance: "definition's ancestor can't be a descendant of the same model", "definition can't declare a
     property that's already defined by one of its ancestors" -/
 
-/-- The walk down the ancestry of `sch` — through `$ref` (alias chains resolved by `chase`) and through the allOf members
+/-- The walk down the ancestry of `sch` — through `$ref` (alias chains resolved by `chase`; a chain of bare references that
+    closes on itself, `aliasLoop`, is circular by itself) and through the allOf members
     that are references or anonymous allOf — having followed the references in `path`, follows one of them again within
     `n` levels of nesting. -/
 inductive Revisits (defs : String → Option Schema) : Nat → Schema → List String → Prop
+  | alias {n : Nat} {sch : Schema} {path : List String} {r : String} :
+      ¬ (sch.base.ref = "" ∧ sch.allOf = []) → aliasLoop defs 64 sch [] = some r → Revisits defs (n + 1) sch path
   | hit {n : Nat} {sch schc : Schema} {path : List String} :
       sch.base.ref ≠ "" → chase defs 64 sch = some schc → sch.base.ref ∈ path → Revisits defs (n + 1) sch path
   | down {n : Nat} {sch schc chld : Schema} {path : List String} :
